@@ -74,6 +74,13 @@ func runC04(c *Ctx) {
 		"GetFinalizedHeight returns the stored marker (value-level, not decided here)",
 		"unsigned wrap-around of heights is ignored in the linear comparison normal form",
 		"the precommitted height itself is computed correctly (C01/C02 territory)")
+	// R5: a finalized block is also lost when another block is *written over* its height: AddBlock
+	// stages the height → ID index before the cache notices a non-consecutive height, so the only
+	// barrier is the verifier — a block is applied only as the successor of the current tip
+	// (the reject edges of C03.V that tie the incoming block to the tip)
+	c.MinInstances("C04.R5 only-the-tips-successor-is-added", c.borrowRule(runC03, "C03", "V reject-edge", "C04.R5 only-the-tips-successor-is-added", func(k string) bool {
+		return strings.Contains(k, "previousBlockID == tip.ID") || strings.Contains(k, "height == tip.height")
+	}), 2)
 	removeBlock := c.Anchor("pkg/blockchain.(*Chain).RemoveBlock")
 	addBlock := c.Anchor("pkg/blockchain.(*Chain).AddBlock")
 	saveBlock := c.Anchor("pkg/blockchain.(*DataAccess).saveBlock")
